@@ -256,6 +256,14 @@ def check_promotion(case, ctx, G):
         elif which == "Vector(list)":
             o = G.Vector(list(vals))
             got = [o[0], o[1], o[2]]
+        elif which == "Point(edited Vector)":
+            # a Vector whose coordinates were assigned one by one (documented item setting) holds a mixture;
+            # the Point built from it must promote like any other constructor call
+            v = G.Vector(0, 0, 0)
+            for i_, x_ in enumerate(vals):
+                v[i_] = x_
+            o = G.Point(v)
+            got = [o.x, o.y, o.z]
         else:
             o = G.Point(*vals)
             got = [o.x, o.y, o.z]
@@ -468,7 +476,7 @@ def gen_promo(draw):
     tns = tuple(draw(st.sampled_from(["int", "frac", "dec", "float", "poly"])) for _ in range(3))
     qs = tuple(draw(q_for(t)) for t in tns)
     # values must be representable in the target type too: float->Decimal/Fraction exact (dyadic); ok
-    which = draw(st.sampled_from(["Vector", "Vector(list)", "Point"]))
+    which = draw(st.sampled_from(["Vector", "Vector(list)", "Point", "Point(edited Vector)"]))
     return ("PROMO", tns, qs, which)
 
 
@@ -495,8 +503,10 @@ def gen_norm(draw, edit=False):
     tn = draw(st.sampled_from(["int", "float", "frac"]))
     e = draw(st.integers(-6, 6))
 
+    small = draw(st.booleans())
+
     def comp():
-        m = draw(st.integers(-999, 999))
+        m = draw(st.integers(-9, 9) if small else st.integers(-999, 999))
         if tn == "int":
             return F(m * 10 ** max(e, 0))
         return F(m) * F(10) ** e
